@@ -96,7 +96,7 @@ CLAIMED = {
              "apex independent; at the centroid the code's tensor is the inertia about it (parallel axis), density "
              "is linear; with an overridden centre the gap to the inertia about that point is an explicit formula "
              "(known finding). The driver evaluates the traced polynomials (proved equal at K=Q) and the exact "
-             "moments on rational inputs and the implementation's float results are compared at 1e-10.",
+             "moments on rational inputs and the implementation's float results are compared at 1e-10. Since registration: Trimesh.moment_inertia_frame -> inertia.transform_inertia is traced from the source as well (Generated/C03Frame.lean) and C03_frame_law proves that output equal to the exact inertia tensor about the frame origin in frame coordinates for every orthonormal frame (parallel-axis shift + change of axes, nine entries); the driver evaluates the traced polynomials and the harness compares them on rational rotations and left-handed frames.",
         note="Trusted: Lean kernel (+propext/Classical.choice/Quot.sound), the symbolic tracer, the closed-form "
              "tetrahedron moments as the definition of the exact integrals (divergence theorem not formalised: "
              "cone decomposition + apex independence instead), float64 rounding only through the comparison; "
@@ -129,7 +129,7 @@ CLAIMED = {
              "neighbours by counting, and connected components = reflexive-transitive closure of adjacency "
              "(label relaxation proved sound and complete, so the result is engine independent). Tied to the "
              "code by an exact differential run of every query on both graph engines, exhaustive small scopes "
-             "in the thorough tier; the angle-defect law is checked numerically on closed meshes.",
+             "in the thorough tier; the angle-defect law is checked numerically on closed meshes. Since registration: C05_defect_sum / C05_gauss_bonnet (angle-defect law for any mesh and discrete Gauss-Bonnet on closed surfaces, corner angles a parameter constrained to sum to pi per face); both hypotheses are evaluated on the implementation.",
         note="Trusted: Lean kernel (+propext/Classical.choice/Quot.sound), the Python harness; scipy csgraph / "
              "networkx are modelled by label relaxation (contract: connected components); vertex_defects "
              "(arccos) only by correspondence at 1e-9; degree counts one per occurrence of a vertex index.",
@@ -143,7 +143,7 @@ CLAIMED = {
              "index/inverse reconstruct the input with first-occurrence representatives (C06_unique, "
              "C06_unique_rows). The model is tied to the code by a differential run (bit-exact hashes, groups as "
              "sets, indices, blocks) on boundary-magnitude arrays; blocks/merge_runs/bincount/boolean_rows are "
-             "modelled and compared, not yet proved.",
+             "modelled and compared, not yet proved. Since registration: theorems for merge_runs, group_min, boolean_rows and for blocks without wrap-around (= specification; the runs tile the index range; a block is exactly a maximal run passing the filter); the two known wrap-around defects are stated as witnesses.",
         note="Trusted: Lean kernel (+propext/Classical.choice/Quot.sound where reported), the Python harness; "
              "np.argsort/np.unique modelled as a stable sort; float quantisation only via correspondence. "
              "Known findings: two blocks(wrap=True) defects.",
@@ -195,7 +195,7 @@ CLAIMED = {
              "C03, capped halves add up in volume. Tied to the code by a differential run: meshes with dyadic "
              "coordinates cut by integer planes through vertices / along edges / in general position, several "
              "planes, face subsets, every cap engine; endpoints on plane and surface, closed loops, areas and "
-             "volumes add up, convex halves watertight, multiplane = repeated single plane. The three handlers of mesh_plane and the quad / corner cut cases of slice_faces_plane (with their index rotation and quad split) are followed by an executable rational model (sectionTri, sliceTri): for every triangle, plane and tolerance the emitted endpoints are on the plane up to the sign tolerance and on the triangle's boundary, kept pieces are on the positive side, wound like the triangle, and the pieces of the two opposite slices tile the triangle (C11_rat_*); the driver evaluates the model on every face of every section / slice case and the result is compared face by face / triangle by triangle with the code.",
+             "volumes add up, convex halves watertight, multiplane = repeated single plane. The three handlers of mesh_plane and the quad / corner cut cases of slice_faces_plane (with their index rotation and quad split) are followed by an executable rational model (sectionTri, sliceTri): for every triangle, plane and tolerance the emitted endpoints are on the plane up to the sign tolerance and on the triangle's boundary, kept pieces are on the positive side, wound like the triangle, and the pieces of the two opposite slices tile the triangle (C11_rat_*); the driver evaluates the model on every face of every section / slice case and the result is compared face by face / triangle by triangle with the code. Since registration: C11_section_closed_loops (zero or two crossed edges per triangle; on a closed surface every crossed edge ends exactly two segments) with the crossed edges per face compared with the real mesh_plane output.",
         note="Trusted: Lean kernel (+propext/Classical.choice/Quot.sound), float64 on dyadic inputs, shapely / "
              "earcut / triangle (polygon assembly and cap triangulation are judged by their outputs, not "
              "modelled), nearest.on_surface as surface membership test. Partial: loop assembly and capping are "
@@ -214,7 +214,7 @@ CLAIMED = {
              "inside, just past a face, converging on one point, duplicated) against both engines (r-tree and "
              "embree) for intersects_id / location / first / any, contains_points, nearest.on_surface, "
              "signed_distance; every query the model finds in general position must agree with it exactly "
-             "(triangle sets, first hit, locations, containment parity, distance, reported triangle).",
+             "(triangle sets, first hit, locations, containment parity, distance, reported triangle). Since registration the broad phase is in the model too (ray_bounds, r-tree candidates, nearby_faces): C12_ray_bounds_complete, C12_hit_is_candidate, C12_pruning_lossless (pruned = exhaustive, for every mesh / origin / unit direction), C12_nearby_complete; the proof's need for unit directions exposed a defect of the r-tree engine for long direction vectors (repaired); ray_bounds boxes, candidates and nearby_faces are compared with the code.",
         note="Trusted: Lean kernel (+propext/Classical.choice/Quot.sound); inside = odd crossing count along a "
              "general-position ray (Jordan); rtree / embree exercised not modelled; float -> rational "
              "conversion. Queries within 1e-3 (barycentric / relative) of an edge, vertex, the origin or the "
@@ -258,7 +258,7 @@ CLAIMED = {
              "Lean formula on the same directions, box vertices / volume against the model, edge pairing "
              "checked independently, analytic volume / area / bounds, section counts 1..40, partial angles "
              "with caps, polygons with holes and every engine, rigid and mirrored placements, sequences of "
-             "primitive parameter edits against a freshly built primitive.",
+             "primitive parameter edits against a freshly built primitive. Since registration: C15_extrude_closed - the index arithmetic of extrude_triangulation yields a closed, consistently wound surface for EVERY cap triangulation without a repeated directed edge (permutation algebra on directed edges); the real extrude_triangulation is compared face for face with that index model.",
         note="Trusted: Lean kernel (+propext/Classical.choice/Quot.sound); polygon triangulation engines judged by "
              "output. Partial: closedness of partial revolves with caps, closed-profile revolves (annulus, torus) "
              "and extrusions is certified per explored parameter set (edge pairing computed on the real "
@@ -279,7 +279,7 @@ CLAIMED = {
              "every point; an accepted minimality certificate (support points + convex weights) proves that "
              "every enclosing ball has radius >= r - eps. Inputs: gaussian, lattice, clustered (spread 1e-2 .. "
              "1e-6), flat, scaled, far, spherical, cylindrical, elongated clouds and non-convex meshes, as "
-             "PointCloud or mesh, moved rigidly; option combinations (normal=, ordered, angle_digits).",
+             "PointCloud or mesh, moved rigidly; option combinations (normal=, ordered, angle_digits). Planar oriented bounds are judged by the same verified box checker (embedded in z = 0).",
         note="Trusted: Lean kernel (+propext/Classical.choice/Quot.sound); qhull / scipy are certified per output, "
              "not modelled; the certificate search (nnls) and the enumeration of support sets used to separate "
              "'not minimal' from 'certificate not found' are harness code; 2D oriented bounds are judged by a Python oracle only (no theorem). "
@@ -334,7 +334,7 @@ CLAIMED = {
              "run (encoded arrays compared element by element, long runs at the dtype limits, list/array, "
              "sorted/unsorted/repeated indices). The lazy Encoding classes/views, the voxel grid index<->point "
              "maps, volume and binvox export/reload are checked against the dense specification by the "
-             "correspondence only (partial).",
+             "correspondence only (partial). Since registration: the index maps of the lazy views (ravel / unravel for any shape, flip, reshape, transpose) are modelled and proved (C13_ravel_unravel, C13_flip_view, C13_reshape_view, C13_transpose_view_partial + 3-cycle witness) and compared with _to_base_indices / _from_base_indices of the real view classes.",
         note="Trusted: Lean kernel (+propext/Classical.choice/Quot.sound), the Python harness, numpy as the dense "
              "specification. Not proved: the Encoding view classes (the known findings list their broken reads by "
              "(encoding, read, failure kind, view)), VoxelGrid transforms.",
@@ -350,7 +350,7 @@ CLAIMED = {
              "a face negates its area vector and volume contribution. fix_normals / fix_winding / fix_inversion, "
              "fill_holes, subdivide_to_size and subdivide_loop are tied to these statements by the differential "
              "run (all / random re-winding subsets incl. whole bodies of unequal size, every single and double "
-             "face removal, edge bounds around the longest edge). Executable rational copies of children / childFaces (Model/GeomRat.lean) are proved equal to the generic definitions by rfl (C18_rat_model_is_generic), subdivision of any triangle list keeps the signed volume (C18_rat_subdivide_volume), and the driver's children are compared triangle by triangle with Trimesh.subdivide.",
+             "face removal, edge bounds around the longest edge). Executable rational copies of children / childFaces (Model/GeomRat.lean) are proved equal to the generic definitions by rfl (C18_rat_model_is_generic), subdivision of any triangle list keeps the signed volume (C18_rat_subdivide_volume), and the driver's children are compared triangle by triangle with Trimesh.subdivide. Since registration: C18_fix_winding (the traversal of repair.fix_winding along any spanning search forest leaves every adjacent pair consistent on an orientable surface, whatever the start faces and order) and the reversed faces of the real fix_winding are compared with the traversal model on every case.",
         note="Trusted: Lean kernel (+propext/Classical.choice/Quot.sound), float64 on dyadic inputs. Partial: the "
              "BFS winding repair and hole filling are checked by correspondence only (networkx traversal not "
              "modelled). Known finding: fill_holes on a tetrahedron missing two faces.",
@@ -367,7 +367,7 @@ CLAIMED = {
              "its name says, and agrees with quaternion_from_euler; products of rotations are rotations; "
              "transform_points is homogeneous multiplication. 59 theorems, all angles incl. gimbal lock. The "
              "inverse maps (euler_from_matrix, quaternion_from_matrix, rotation_from_matrix, decompose) and the "
-             "svd/eig based functions are checked by exact-input numeric round trips (correspondence, partial).",
+             "svd/eig based functions are checked by exact-input numeric round trips (correspondence, partial). Since registration the inverse direction: euler_from_matrix is traced for all 24 conventions and both branches and composed with the traced euler_matrix; 48 generated lemmas (certificates recomputed on every run) and C19_euler_from_matrix_<axes> / _gimbal_<axes> state that the arctan2 arguments are a common factor times (sin, cos) of the angles that went in, and that the gimbal branch rebuilds the matrix.",
         note="Trusted: Lean kernel (+propext/Quot.sound, Classical.choice in one helper), the symbolic tracer, "
              "sin/cos as symbols with c^2+s^2=1, float64 on Pythagorean inputs. Known finding: decompose_matrix at "
              "gimbal lock with shear/scale.",
